@@ -60,10 +60,15 @@ def genFieldsWith (gen : TypeRef → Rng → Option (Val × Rng)) (c : Comb) : E
           let (k, r1) :=
             if maskOnly c i then Rng.subset (maskBits c f.name) r
             else
-              let (w, r0) := r.below 3
+              let (w, r0) := r.below 4
               if w == 0 && !usedAsScale c i f.name && f.name != "" then
                 let (x, r') := r0.below 1048576
                 (x, r')
+              else if w == 1 && !usedAsScale c i f.name && f.name != "" then
+                -- a field that is passed to a type: the bits its own combinator uses, all set or a random subset
+                let (y, r') := r0.below 2
+                if y == 0 then ((maskBits c f.name).foldl (fun a b => if b < 32 then a ||| (1 <<< b) else a) 0, r')
+                else Rng.subset (maskBits c f.name) r'
               else r0.below 4
           (genFieldsWith gen c (e.after f (some k)) (i + 1) fs r1).map (fun p => (.cons (.nat k) p.1, p.2))
         else
